@@ -296,7 +296,7 @@ pub fn run(g: &mut Global) {
         },
         &check,
     );
-    g.random("random", g.tier.pick(60000, 3000000), &|| strategy(1, 300), &check);
+    g.random("random", g.tier.pick(150000, 3000000), &|| strategy(1, 300), &check);
     // the same relations after reset() on the same instance(s): resets at multiples of the period, next to them,
     // anywhere, and a second reset before the window refilled
     g.random("resets", g.tier.pick(30000, 300000), &reset_strategy, &check_resets);
